@@ -387,6 +387,11 @@ def directed_cases():
     for argv in ([], [b"--f"], [b"--n"], [b"-kk"]):
         out.append((cmd(fl), argv))
     out.append((cmd([arg("k", action="count", env=E(b"3"))]), []))
+    # a flag declared as a value-less option: num_args(0) without an action infers SetTrue WITH its implicit default
+    # `false` (Arg::_build; seeded change seed4/C06-2 installed implicit defaults only for explicitly set actions)
+    inf = [arg("q", num=(0, 0), short="q"), arg("e", action="settrue")]
+    for argv in ([], [b"--q"], [b"-q"], [b"--e"], [b"--q", b"--e"]):
+        out.append((cmd(inf), argv))
     # overrides: an overridden command-line argument falls back to env / default
     ov = [arg("a", action="set", default=[b"d"], env=E(b"e")), arg("b", action="set", overrides=[b"a"])]
     for argv in ([b"--a", b"x", b"--b", b"y"], [b"--b", b"y", b"--a", b"x"]):
@@ -403,9 +408,20 @@ def directed_cases():
 
 
 # ====================================================================== decoding
+def infer_actions(c):
+    """Arg::_build: an argument without an explicit action that takes no value (num_args(0)) is a SetTrue flag -- with
+    SetTrue's implicit default -- (everything else without an action is read as Set/Append by the code below)"""
+    for a in c["args"]:
+        if a.get("action") is None and a.get("num") == (0, 0):
+            a["action"] = "settrue"
+    for s_ in c["subs"]:
+        infer_actions(s_)
+    return c
+
+
 def decode(case):
     sx = sx_parse(case)
-    return cmd_of_sx(sx[1][1:]), None, [unhex(t) for t in sx[2][1:]]
+    return infer_actions(cmd_of_sx(sx[1][1:])), None, [unhex(t) for t in sx[2][1:]]
 
 
 def split_impl(impl):
